@@ -29,8 +29,8 @@ HEAP_WRITERS = {
     "ts_parser__lex": "external-scanner state stored on the token just created",
     "ts_parser__reduce": "fragility/extra flags on the parent just created by ts_subtree_new_node",
 }
-MUTPARAM = {"ts_subtree_summarize_children": "self", "ts_subtree_set_symbol": "self", "ts_subtree_set_extra": "self",
-            "ts_subtree_set_has_changes": "self"}
+MUTPARAM = {"ts_subtree_summarize_children": 0, "ts_subtree_set_symbol": 0, "ts_subtree_set_extra": 0,
+            "ts_subtree_set_has_changes": 0}
 
 READONLY_FILES = ("lib/src/node.c", "lib/src/tree_cursor.c", "lib/src/get_changed_ranges.c", "lib/src/query.c")
 READONLY_ROOTS = ("ts_tree_root_node", "ts_tree_root_node_with_offset", "ts_tree_included_ranges", "ts_tree_copy",
@@ -176,6 +176,12 @@ def rule_w1(ctx, F, writers):
             continue
         cls, cnt, arg = table[k]
         site = {"function": fn.name, "site": fn.loc(pt), "class": cls, "expr": show(n)[:100]}
+        if cls in ("FRESH", "OWNED_ARRAY"):
+            # the variable actually converted at this site (whatever it is called)
+            src = n["a"][0] if kind == "to_mut" else (n["e"] if kind == "constcast" else next((f["e"] for f in n.get("fields", []) if not f.get("implicit")), {}))
+            rv = [x["name"] for x in walk(strip(src)) if x.get("k") == "ref" and x.get("dk") == "local"]
+            if rv:
+                arg = rv[0]
         if cls == "FRESH":
             ok, why = all_defs_fresh(fn, arg)
             if ok:
@@ -185,7 +191,8 @@ def rule_w1(ctx, F, writers):
         elif cls == "OWNED_ARRAY":
             ids = fn.ids_named(arg)
             d = fn.single_def(ids[0]) if ids else None
-            ok = d is not None and M(fn).match("&children->contents[children->size]", strip(d)) and any(q["name"] == "children" and q["t"].startswith("SubtreeArray *") for q in fn.params)
+            arrp = [q["name"] for q in fn.params if q["t"].startswith("SubtreeArray *")]
+            ok = d is not None and arrp and M(fn).match("&%s->contents[%s->size]" % (arrp[0], arrp[0]), strip(d))
             grow = find(fn, "_array__reserve(...)") or find(fn, "children->contents = _") or find(fn, "ts_realloc(...)")
             if ok and grow:
                 ctx.ok("W1", key, "OWNED_ARRAY: the node header is placed behind the caller's private children array (grown in this function)", sample=site)
@@ -268,10 +275,11 @@ def rule_writers(ctx, F, writers):
             ctx.ok("W1", "%s:node-writer" % name, "%d store(s); %s" % (len(sts), HEAP_WRITERS[name]), sample={"function": name, "stores": len(sts), "why": HEAP_WRITERS[name]})
     ctx.floor("functions storing into node payload", len(writers), 12)
     # MUTPARAM functions write only through their MutableSubtree parameter
-    for name, p in MUTPARAM.items():
+    for name, pidx in MUTPARAM.items():
         fn = F.fn(name)
-        if not fn:
+        if not fn or pidx >= len(fn.params):
             continue
+        p = fn.params[pidx]["name"]
         bad = [(pt, n) for pt, n, l, d in writers.get(name, []) if p not in roots(l)]
         if bad:
             ctx.bad("W1", "%s:writes-only-through-%s" % (name, p), "%s stores into a node not reached through its MutableSubtree parameter: `%s` at %s" % (name, show(bad[0][1])[:80], fn.loc(bad[0][0])))
